@@ -218,7 +218,12 @@ pub fn short_err(e: &DecapError) -> String {
 }
 
 pub fn plain_dec(slots: usize, pdu_size: usize, nbuf: usize, buf_len: usize, table: MandTable) -> PlainDec {
-    let mut mem = SimpleGseMemory::new(slots, pdu_size, 0, 0);
+    plain_dec_ex(slots, pdu_size, nbuf, buf_len, table, 0, 0)
+}
+
+/// like `plain_dec`, with the two constructor arguments the bundled memory documents as not (yet) used
+pub fn plain_dec_ex(slots: usize, pdu_size: usize, nbuf: usize, buf_len: usize, table: MandTable, max_delay: usize, max_pdu_frag: usize) -> PlainDec {
+    let mut mem = SimpleGseMemory::new(slots, pdu_size, max_delay, max_pdu_frag);
     for _ in 0..nbuf {
         let _ = mem.provision_storage(vec![0u8; buf_len].into_boxed_slice());
     }
